@@ -358,6 +358,7 @@ func init() {
 			guard(r, "ERRIDENT", func() { ruleERRIDENT(w, r) })
 			guard(r, "SLICECAP", func() { ruleSLICECAP(w, r) })
 			guard(r, "SHARDTAB", func() { ruleSHARDTAB(w, r) })
+			guard(r, "ALLOCBOUND", func() { ruleALLOCBOUND(w, r) })
 			guard(r, "EFF", func() { ruleEFF(w, r, effOpts{e1: true, impl: true}) })
 			guard(r, "NOWRITE", func() { ruleNOWRITE(w, r) })
 			guard(r, "PAIR", func() { rulePAIRpar2(w, r, pairOpts{decoder: true}) })
@@ -404,13 +405,15 @@ func init() {
 	})
 
 	register(&propertySpec{
-		ID: "C17", Fixtures: []string{"FMTCONST"}, NeedCG: true, Quick: cfgAMD, Thorough: cfgAll,
+		ID: "C17", Fixtures: []string{"FMTCONST", "GLOBALS"}, NeedCG: true, Quick: cfgAMD, Thorough: cfgAll,
 		Explanation: "Decides that Create's output depends only on its inputs: no time, random or process-identity call on Create's call-graph closure; every range over a map has an order-insensitive body or ranges over a field that is never set there; the recovery set is sorted by file id before it is stored; the names hashed into file ids derive from Rel(Dir(Abs(parPath)), Abs(p)) for every input (PAR1: Base(p)) (DETERM); the output names depend only on the index path (CREATE-PATHS); independence from the goroutine count by the worker partition (RACE). No I/O is done on a bare set-relative name, which would make the result depend on the working directory (ANCHOR); the writer primitive truncates, so outputs do not depend on earlier runs (EFF write-impl).",
 		NotDecided:  []string{"byte equality of two runs as such (follows only together with the purity of the kernels, which is value level)"},
 		Run: func(w *World, r *Report, tier string) {
 			guard(r, "DETERM", func() { ruleDETERM(w, r) })
 			guard(r, "CREATE-PATHS", func() { ruleCREATEPATHS(w, r) })
 			guard(r, "ANCHOR", func() { ruleANCHOR(w, r, "Encoder)", 3) })
+			guard(r, "PATHORDER", func() { rulePATHORDER(w, r) })
+			guard(r, "GLOBALS", func() { ruleGLOBALS(w, r, nil) })
 			guard(r, "FMTCONST", func() { ruleFMTCONST(w, r) })
 			guard(r, "BASECUT", func() { ruleBASECUT(w, r) })
 			guard(r, "TABLEFILL", func() {
@@ -459,6 +462,8 @@ func init() {
 			guard(r, "IFSCPAIRS", func() { ruleIFSCPAIRS(w, r) })
 			guard(r, "SLICECAP", func() { ruleSLICECAP(w, r) })
 			guard(r, "SHARDTAB", func() { ruleSHARDTAB(w, r) })
+			guard(r, "ALLOCBOUND", func() { ruleALLOCBOUND(w, r) })
+			guard(r, "PAIR", func() { rulePAIRpar2(w, r, pairOpts{decoder: true}) })
 			guard(r, "NILF", func() { ruleNILF(w, r) })
 			guard(r, "MKLEN", func() { ruleMKLEN(w, r) })
 			guard(r, "RANGE", func() { ruleRANGE(w, r, []string{"par1", "par2"}, 0) })
@@ -467,7 +472,7 @@ func init() {
 	})
 
 	register(&propertySpec{
-		ID: "C20", Fixtures: []string{"GLOB"}, NeedCG: true, Quick: cfgAMD, Thorough: cfgAll,
+		ID: "C20", Fixtures: []string{"GLOB", "EFF"}, NeedCG: true, Quick: cfgAMD, Thorough: cfgAll,
 		Explanation: "Decides the exit-status mapping of cmd/par.main on its control-flow graph with no-return inference and a small abstract interpreter for the helpers: after each library call no path with a non-nil error reaches status 0 and every status there is a known non-zero constant; verify's success side exits with processRepairChecker(result counts); the repair error of each format reaches that format's classifier before any exit and the classifier's true edge exits 2; formats are selected by path.Ext; usage errors exit 3; main cannot fall off its end (CLI 1-6). processRepairChecker and the verdict predicates are evaluated exhaustively over their finite comparison domain against the table in the property (DECIDE). The type the PAR2 classifier asserts is exactly the type ReconstructData returns on the not-enough-parity edge (PAIR-ERRTYPE). Volume discovery returns every matching directory entry, so 'possible' is judged on all recovery files present (GLOB). The library operations declare success only through the decoder (ENTRY-SEQ) and relative data paths are made absolute against the current directory with filepath.Abs (DETERM D-d). The PAR1 double check verifies shards completed by Reconstruct, parity included (PAIR reconstruct-then-verify).",
 		NotDecided:  []string{"which library error arises in which archive state (e.g. PAR2 'no parity shards' is an unclassified error)", "flag parsing semantics of package flag", "resolution of relative paths by the OS"},
 		Run: func(w *World, r *Report, tier string) {
@@ -479,6 +484,9 @@ func init() {
 			guard(r, "PAIR", func() { rulePAIRERRTYPE(w, r); ruleCLASSIFY(w, r); pairPar1Reconstruct(w, r) })
 			guard(r, "ERRIDENT", func() { ruleERRIDENT(w, r) })
 			guard(r, "PAR1NOPAR", func() { rulePAR1NOPAR(w, r) })
+			guard(r, "EFF", func() { ruleEFF(w, r, effOpts{e1: true, impl: true}) })
+			guard(r, "ERRFLOW", func() { ruleERRFLOW(w, r, errflowScope{pkgs: []string{"par1", "par2", "cmd/par"}}, 110) })
+			guard(r, "REPORT", func() { ruleREPORT(w, r) })
 			guard(r, "NEEDSLICE", func() { ruleNEEDSLICE(w, r) })
 			guard(r, "GATE", func() { ruleGATE(w, r, gateOpts{par1: true}) })
 			guard(r, "GLOB", func() { ruleGLOB(w, r, globOpts{complete: true}) })
